@@ -681,3 +681,17 @@ Theorem dtd_attr_defaults ra da qn d m present :
   parse_attribute ra = Some da -> attr_decl_of_raw qn ra = Some d -> valid_attr d present = true ->
   afield_roundtrip (afield_of_attr qn (build_attribute m da) (model_enum da)) present = Some (effective d present).
 Proof. intros Hp Hd Hv. apply attr_compat_sound; [eapply dtd_attr_compat; eauto|exact Hv]. Qed.
+
+(* clause 4 (compound fields): (from|(Tag,sub-item,n1)) is inside guard_seq / guard_or, the mapper keeps capacity per name,
+   but all four attrs carry one and the same choice id with max_occurs 1 — CreateCompoundFields folds them into one
+   one-item field — while a word of the model has three children *)
+Definition w_or_seq : raw_content :=
+  grp S_or S_once (el "from" S_once)
+      (grp S_seq S_once (el "Tag" S_once) (grp S_seq S_once (el "sub-item" S_once) (el "n1" S_once))).
+
+Theorem dtd_choice_of_sequence_one_choice_id :
+  dtd_guard w_or_seq = true /\ guard_orseq w_or_seq = false /\
+  option_map (fun dc => map (fun a => (a_max a, a_choice a)) (build_content dc None [])) (parse_content w_or_seq)
+  = Some [(Some 1%N, Some []); (Some 1%N, Some []); (Some 1%N, Some []); (Some 1%N, Some [])] /\
+  option_map (maxcountP (fun _ => true)) (cm_of_raw w_or_seq) = Some (Some 3).
+Proof. repeat split; vm_compute; reflexivity. Qed.
